@@ -87,12 +87,11 @@ class ParallelStep(GeneticStep):
     def compute_ranges(self, population, target_size):
         """Computes the ranges for each slide, according to weights."""
         total = sum(self.weights)
-        indices = [0] + self.cumsum(
-            [int(round(w * len(population) / total, 0)) for w in self.weights],
-        )
+        shares = [int(round(w * target_size / total, 0)) for w in self.weights]
+        # Rounded shares can over- or under-shoot: clamp the boundaries and let the last slice absorb the rest.
+        indices = [min(i, target_size) for i in [0] + self.cumsum(shares)]
         ranges = list(zip(indices, indices[1:]))
-        if ranges[-1][0] < target_size:
-            ranges[-1] = (ranges[-1][0], target_size)
+        ranges[-1] = (ranges[-1][0], target_size)
         return ranges
 
     def iterate(
